@@ -305,7 +305,7 @@ func init() {
 		ID:       "C15",
 		Rule:     "H264Packet and AV1Depacketizer: a frame A is payloaded (one time in five B is A again - a retransmission), every subset of A's packets is delivered (all 2^k subsets for k <= 10 packets in thorough, 64 sampled subsets in quick, plus random byte strings as history), then an intact frame B; the outputs for B's packets must equal what a fresh depacketizer produces for B; non-trivial = A has a fragmented unit and the delivered subset is a proper one",
 		Quick:    1500,
-		Thorough: 60000,
+		Thorough: 4000, // frames; thorough delivers every one of the up to 2^10 subsets of each (about 10^6 cases)
 		Gen: func(r *RNG, tier string, n int, emit func(op int, toks ...Tok)) {
 			for i := 0; i < n; i++ {
 				c := r.Fork(uint64(i))
